@@ -120,6 +120,8 @@ def gen_case(rng):
                 tcls = rng.choice(["Bd", "Hd"])
                 sub = [[g, ["const", rng.choice(VALS[g])]] for g in FIELDS[tcls] if rng.random() < 0.45]
                 fields.append([f, ["term", tcls, sub, rng.random() < 0.3]])
+                if rng.random() < 0.3:
+                    fields[-1][1].append("the")     # the(T'(From(d), ...)) as the field value: exactly one match, or an exception
         else:
             fields.append([f, ["const", rng.choice(VALS[f])]])
     extras = [[rng.randint(0, 6), rng.choice(["other", "int", "none", "cross"])] for _ in range(rng.randint(0, 3))]
@@ -167,6 +169,19 @@ def _match_value(o, spec, bodies):
         return any(o is y for y in bodies if isinstance(y, CLS[spec[1]]) and getattr(y, spec[2]) == spec[3])
     tcls, sub = spec[1], spec[2]
     return any(o is y for y in bodies if isinstance(y, CLS[tcls]) and all(_match_value(getattr(y, g), v, bodies) for g, v in sub))
+
+
+def the_term_outcome(case, bodies):
+    """None, or 'NoSolutionFound' / 'MultipleSolutionFound' when some the(...) field value does not have exactly one match"""
+    for i, (f, v) in enumerate(case["fields"]):
+        if v[0] == "term" and len(v) > 4 and v[4] == "the":
+            n = len([y for y in bodies if isinstance(y, CLS[v[1]]) and all(_match_value(getattr(y, g), sv, bodies) for g, sv in v[2])])
+            if n != 1:
+                # only the FIRST field's term is certainly asked (a later one is skipped when an earlier condition fails for
+                # every member): "unspecified" then
+                # (positional values are turned into conditions AFTER the keyword ones: with positional fields the order differs)
+                return ("NoSolutionFound" if n == 0 else "MultipleSolutionFound") if (i == 0 and not case["positional"]) else "unspecified"
+    return None
 
 
 def expected(case, bodies, dom):
@@ -217,6 +232,9 @@ def run(case, bodies, dom, form):
                         val = CLS[v[1]](From(bodies), *pos, **sub_kwargs)
                     else:
                         val = CLS[v[1]](From(bodies), **sub_kwargs)
+                    if len(v) > 4 and v[4] == "the":
+                        from entity_query_language import the as _the
+                        val = _the(val)
                 if i < case["positional"]:
                     args.append(val)
                 else:
@@ -230,7 +248,15 @@ def run(case, bodies, dom, form):
                 q = an(term)
             else:
                 q = an(entity(term, *extra_conds))
+            probe = None
+            if not extra_conds and case["decl"] == "from" and case["container"] in ("list", "tuple") and not the_term_outcome(case, bodies):
+                # a second term like the first: the(...) over it is abandoned at its second solution (MultipleSolutionFound),
+                # an(...) over the SAME term afterwards still ranges over all members
+                from entity_query_language import the as _the
+                term2 = T(From(_container(case, dom)), *args, **kwargs)
+                probe = (_the(entity(term2)), an(entity(term2)))
         else:
+            probe = None
             x = let(T, _container(case, dom))
             conds = []
             for f, v in case["fields"]:
@@ -239,6 +265,10 @@ def run(case, bodies, dom, form):
                 elif v[0] == "var":
                     y = let(CLS[v[1]], bodies)
                     conds += [getattr(x, f) == y, getattr(y, v[2]) == v[3]]
+                elif len(v) > 4 and v[4] == "the":
+                    from entity_query_language import the as _the
+                    y = let(CLS[v[1]], bodies)
+                    conds.append(getattr(x, f) == _the(entity(y, *[getattr(y, g) == sv[1] for g, sv in v[2]])))
                 else:
                     y = let(CLS[v[1]], bodies)
                     conds.append(getattr(x, f) == y)
@@ -251,6 +281,16 @@ def run(case, bodies, dom, form):
         if form == "predicate":
             repr(term), term._name_
     first = list(q.evaluate())
+    if form == "predicate" and probe is not None and len(first) >= 2:
+        from entity_query_language import MultipleSolutionFound
+        try:
+            probe[0].evaluate()
+            raise SecondEvaluationDiffers("the(...) over a term with several solutions did not raise")
+        except MultipleSolutionFound:
+            pass
+        after = list(probe[1].evaluate())
+        if len(after) != len(first) or any(a_ is not b_ for a_, b_ in zip(first, after)):
+            raise SecondEvaluationDiffers(f"an(...) over a term after the(...) over it was abandoned: {len(after)} rows, expected {len(first)}")
     if case["container"] != "gen" and (case.get("no_instance_in_domain") or len(case["bodies"]) % 2):
         # the same query object evaluated again ranges over the same members of the given domain (a generator is one-shot)
         second = list(q.evaluate())
@@ -290,6 +330,26 @@ def check_case(case, ctx):
     def enc(rows):
         return [ids.get(id(o), f"?{type(o).__name__}") for o in rows]
     got = {}
+    outcome = the_term_outcome(case, bodies)
+    if outcome == "unspecified":
+        ctx.cls("cls:the_term_unspecified_outcome_skipped")
+        return
+    if outcome:
+        ctx.cls("cls:the_term_without_exactly_one_match")
+        for form in ("predicate", "explicit"):
+            try:
+                rows_ = run(case, bodies, dom, form)
+                if [o for o in dom if isinstance(o, T)]:     # (with nothing to range over the term is never asked)
+                    ctx.fail("THE_TERM_DID_NOT_RAISE", {"form": form, "expected": outcome, "rows": len(rows_)})
+                    return
+            except Exception as e:
+                if type(e).__name__ != outcome:
+                    ctx.fail("THE_TERM_WRONG_EXCEPTION", {"form": form, "expected": outcome, "observed": f"{type(e).__name__}: {e}"[:200]})
+                    return
+        ctx.sample({"case": case, "the_term": outcome})
+        return
+    if any(v[0] == "term" and len(v) > 4 for _, v in case["fields"]):
+        ctx.cls("cls:the_term_with_one_match")
     for form in ("predicate", "explicit"):
         try:
             got[form] = enc(run(case, bodies, dom, form))
